@@ -800,4 +800,920 @@ Section MddStruct.
     exists val. split; auto. simpl in Hin. intuition.
   Qed.
 
+  (* ---- log extensions by class of event *)
+  Inductive evkind := KNextVar | KDomain | KTransition | KCost | KMerge | KRelax | KCacheGet | KCacheUpd | KDomQuery.
+  Definition kind_of (ev : event St) : evkind :=
+    match ev with
+    | EvNextVar _ _ _ => KNextVar | EvDomain _ _ => KDomain | EvTransition _ _ _ => KTransition
+    | EvCost _ _ _ _ => KCost | EvMerge _ _ => KMerge | EvRelax _ _ _ _ _ _ => KRelax
+    | EvCacheGet _ _ => KCacheGet | EvCacheUpd _ _ _ _ => KCacheUpd | EvDomQuery _ _ _ _ _ => KDomQuery
+    end.
+
+  (* [logext P m m']: the log of m' is the log of m plus events that all satisfy P *)
+  Definition logext (P : event St -> Prop) (m m' : mddT) : Prop :=
+    exists k, m_log m' = k ++ m_log m /\ Forall P k.
+
+  Lemma logext_same P (m m' : mddT) : m_log m' = m_log m -> logext P m m'.
+  Proof. intros H. exists []. split; auto. Qed.
+  Lemma logext_refl P m : logext P m m.
+  Proof. apply logext_same; reflexivity. Qed.
+  Lemma logext_trans P m1 m2 m3 : logext P m1 m2 -> logext P m2 m3 -> logext P m1 m3.
+  Proof.
+    intros [k1 [E1 F1]] [k2 [E2 F2]]. exists (k2 ++ k1). split.
+    - rewrite E2, E1, app_assoc; reflexivity.
+    - apply Forall_app; auto.
+  Qed.
+  Lemma logext_weaken (P Q : event St -> Prop) m m' :
+    (forall ev, P ev -> Q ev) -> logext P m m' -> logext Q m m'.
+  Proof.
+    intros H [k [E F]]. exists k. split; auto. eapply Forall_impl; eauto.
+  Qed.
+  Lemma logext_add_log (P : event St -> Prop) m e : P e -> logext P m (add_log m e).
+  Proof. intros H. exists [e]. split; auto. Qed.
+  Lemma logext_fold {B} P (f : mddT -> B -> mddT) l m a :
+    logext P m a -> (forall a x, logext P a (f a x)) -> logext P m (fold_left f l a).
+  Proof.
+    intros H1 H2. apply (fold_left_inv (fun a => logext P m a)); auto.
+    intros b x _ Hb. eapply logext_trans; eauto.
+  Qed.
+  Lemma logext_r_upd_node P m a k f : logext P m a -> logext P m (upd_node a k f).
+  Proof. intros H. eapply logext_trans; [exact H|apply logext_same; reflexivity]. Qed.
+
+  Definition kind_in (ks : list evkind) (ev : event St) : Prop := In (kind_of ev) ks.
+
+  Ltac one_event := eexists [_]; split; [reflexivity|constructor; [left; reflexivity|constructor]].
+
+  Lemma logext_cache_get m s d m' r :
+    cache_get st_eqb inp m s d = (m', r) -> logext (kind_in [KCacheGet]) m m'.
+  Proof.
+    unfold cache_get. destruct (ci_use_cache inp).
+    - destruct (get_threshold _ _ _ _); intros H; inversion H; subst; one_event.
+    - intros H; inversion H; subst. one_event.
+  Qed.
+
+  Lemma logext_cache_update m s d v e :
+    logext (kind_in [KCacheUpd]) m (cache_update st_eqb inp m s d v e).
+  Proof.
+    unfold cache_update. destruct (ci_use_cache inp).
+    - destruct (update_threshold _ _ _ _ _ _); one_event.
+    - one_event.
+  Qed.
+
+  Lemma logext_dom_query m s d v m' r :
+    dom_query inp m s d v = (m', r) -> logext (kind_in [KDomQuery]) m m'.
+  Proof.
+    unfold dom_query. destruct (ci_domrule inp) as [[[[key nd] coord] usev]|].
+    - destruct (is_dominated_or_insert _ _ _ _ _ _ _ _ _) as [[st' r']|]; intros H; inversion H; subst; one_event.
+    - intros H; inversion H; subst. one_event.
+  Qed.
+
+  Lemma logext_filter_with_cache l : forall m m' l',
+    filter_with_cache st_eqb inp m l = (m', l') -> logext (kind_in [KCacheGet]) m m'.
+  Proof.
+    induction l as [|id l IH]; simpl; intros m m' l' H.
+    - inversion H; subst; apply logext_refl.
+    - destruct (cache_get _ _ _ _ _) as [m1 th] eqn:Hc. apply logext_cache_get in Hc.
+      destruct th as [t|].
+      + destruct (_ >? _)%Z.
+        * destruct (filter_with_cache _ _ m1 l) as [m2 r] eqn:Hf. inversion H; subst.
+          eapply logext_trans; eauto.
+        * eapply logext_trans; [|eapply IH; exact H].
+          apply logext_r_upd_node; exact Hc.
+      + destruct (filter_with_cache _ _ m1 l) as [m2 r] eqn:Hf. inversion H; subst.
+        eapply logext_trans; eauto.
+  Qed.
+
+  Lemma logext_dom_retain l : forall m m' l',
+    dom_retain inp m l = (m', l') -> logext (kind_in [KDomQuery]) m m'.
+  Proof.
+    induction l as [|id l IH]; simpl; intros m m' l' H.
+    - inversion H; subst; apply logext_refl.
+    - destruct (fl_is_exact _).
+      + destruct (dom_query _ _ _ _ _) as [m1 r] eqn:Hq. apply logext_dom_query in Hq.
+        destruct (dc_dominated r).
+        * eapply logext_trans; [|eapply IH; exact H].
+          apply logext_r_upd_node; exact Hq.
+        * destruct (dom_retain _ m1 l) as [m2 k] eqn:Hf. inversion H; subst.
+          eapply logext_trans; eauto.
+      + destruct (dom_retain _ m l) as [m2 k] eqn:Hf. inversion H; subst. eauto.
+  Qed.
+
+  Lemma logext_filter_with_dominance m l m' l' :
+    filter_with_dominance inp m l = (m', l') -> logext (kind_in [KDomQuery]) m m'.
+  Proof. unfold filter_with_dominance. apply logext_dom_retain. Qed.
+
+  Lemma note_squash_log m : m_log (note_squash inp m) = m_log m.
+  Proof. unfold note_squash. destruct (is_pooled _); [reflexivity|]. destruct (m_lel m); reflexivity. Qed.
+  Lemma note_squash_nodes m : m_nodes (note_squash inp m) = m_nodes m.
+  Proof. unfold note_squash. destruct (is_pooled _); [reflexivity|]. destruct (m_lel m); reflexivity. Qed.
+  Lemma note_squash_edges m : m_edges (note_squash inp m) = m_edges m.
+  Proof. unfold note_squash. destruct (is_pooled _); [reflexivity|]. destruct (m_lel m); reflexivity. Qed.
+  Lemma note_squash_gnode m id : gnode (note_squash inp m) id = gnode m id.
+  Proof. unfold get_node. rewrite note_squash_nodes. reflexivity. Qed.
+
+  Lemma mark_deleted_log (m : mddT) ids : m_log (mark_deleted m ids) = m_log m.
+  Proof. unfold mark_deleted. apply fold_left_proj. intros; reflexivity. Qed.
+
+  (* restrict makes no call into user code *)
+  Theorem restrict_layer_log m l m' l' : restrict_layer inp m l = (m', l') -> m_log m' = m_log m.
+  Proof.
+    unfold restrict_layer. intros H; inversion H; subst.
+    rewrite mark_deleted_log. apply note_squash_log.
+  Qed.
+
+  (* ---- relax: weak form (the strong form, which identifies the edges, needs wf and is below) *)
+  Definition relax_event_with (merged : St) (ev : event St) : Prop :=
+    exists src dst d c, ev = EvRelax src dst merged d c (relax rlx src dst merged d c).
+
+  Lemma logext_redirect_edges m merged mid did :
+    logext (relax_event_with merged) m (redirect_edges inp m merged mid did).
+  Proof.
+    unfold redirect_edges. apply logext_fold; [apply logext_refl|]. intros a eid.
+    eapply logext_trans; [apply logext_add_log|apply logext_same; reflexivity].
+    repeat eexists.
+  Qed.
+
+  Definition merged_ids (m : mddT) (l : list nat) : list nat :=
+    skipn (ci_width inp - 1) (sort_by (rank_order inp (note_squash inp m)) l).
+  Definition merged_states (m : mddT) (l : list nat) : list St :=
+    map (fun id => state_of m id) (merged_ids m l).
+
+  Theorem relax_layer_log_weak m l m' l' :
+    1 <= ci_width inp ->
+    relax_layer st_eqb inp m l = (m', l') ->
+    let mstates := merged_states m l in
+    let merged := merge rlx mstates in
+    exists evs, m_log m' = evs ++ EvMerge mstates merged :: m_log m /\
+                Forall (relax_event_with merged) evs.
+  Proof.
+    unfold relax_layer, merged_states, merged_ids. intros Hw.
+    destruct (ci_width inp) as [|w1]; [lia|]. simpl Nat.sub. rewrite Nat.sub_0_r.
+    set (m0 := note_squash inp m).
+    set (sorted := sort_by (rank_order inp m0) l).
+    set (mrg := skipn w1 sorted).
+    assert (Hms : map (fun id => state_of m0 id) mrg = map (fun id => state_of m id) mrg).
+    { apply map_ext. intros id. unfold m0. rewrite note_squash_gnode. reflexivity. }
+    rewrite Hms. set (mstates := map _ mrg). set (merged := merge rlx mstates).
+    set (m1 := add_log m0 _).
+    assert (L1 : m_log m1 = EvMerge mstates merged :: m_log m).
+    { unfold m1. simpl. unfold m0. rewrite note_squash_log. reflexivity. }
+    assert (Hfold : forall mid a, logext (relax_event_with merged) m1 a ->
+      logext (relax_event_with merged) m1
+        (fold_left (fun m drop_id => redirect_edges inp
+            (upd_node m drop_id (fun n => set_flags n (fl_set_deleted (n_flags n) true))) merged mid drop_id) mrg a)).
+    { intros mid a Ha. apply logext_fold; auto. intros b x.
+      eapply logext_trans; [|apply logext_redirect_edges]. apply logext_same; reflexivity. }
+    intros H. cbv zeta.
+    assert (G : logext (relax_event_with merged) m1 m').
+    { destruct (find _ (firstn w1 sorted)) as [rid|]; injection H as <- _.
+      - apply logext_r_upd_node. apply Hfold. apply logext_r_upd_node. apply logext_refl.
+      - apply Hfold. apply logext_r_upd_node. apply logext_same; reflexivity. }
+    destruct G as [k [E F]]. exists k. rewrite E, L1. split; auto.
+  Qed.
+
+  (* when called from squash_if_needed, at least two states are merged *)
+  Lemma squash_relax_merges_two m l :
+    ci_type inp = Relaxed -> 1 <= ci_width inp ->
+    ci_width inp < length l -> 1 < length (m_layers m) ->
+    squash_if_needed st_eqb inp m l = relax_layer st_eqb inp m l /\ 2 <= length (merged_states m l).
+  Proof.
+    intros Ht Hw Hlt Hl. unfold squash_if_needed. rewrite Ht.
+    apply Nat.ltb_lt in Hlt. apply Nat.ltb_lt in Hl. rewrite Hlt, Hl. split; [reflexivity|].
+    unfold merged_states, merged_ids. rewrite map_length, skipn_length, sort_by_length.
+    apply Nat.ltb_lt in Hlt. lia.
+  Qed.
+
+  Definition squash_event (ev : event St) : Prop :=
+    kind_in [KMerge; KRelax] ev.
+
+  Lemma logext_squash_if_needed m l m' l' :
+    squash_if_needed st_eqb inp m l = (m', l') -> logext (kind_in [KMerge; KRelax]) m m'.
+  Proof.
+    unfold squash_if_needed. destruct (ci_type inp).
+    - intros H; inversion H; subst; apply logext_refl.
+    - destruct (_ && _); [|intros H; inversion H; subst; apply logext_refl].
+      intros H. destruct (ci_width inp) as [|w1] eqn:Hw.
+      + unfold relax_layer in H. rewrite Hw in H. inversion H; subst.
+        apply logext_same. simpl. apply note_squash_log.
+      + destruct (relax_layer_log_weak m l m' l') as [evs [E F]]; [lia|exact H|].
+        exists (evs ++ [EvMerge (merged_states m l) (merge rlx (merged_states m l))]). split.
+        * rewrite E, <- app_assoc. reflexivity.
+        * apply Forall_app. split.
+          -- eapply Forall_impl; [|exact F]. intros ev [src [dst [d [c ->]]]]. right; left; reflexivity.
+          -- constructor; auto. left; reflexivity.
+    - destruct (_ <? _); [|intros H; inversion H; subst; apply logext_refl].
+      intros H. apply logext_same. eapply restrict_layer_log; eauto.
+  Qed.
+
+  Lemma logext_branch_on m id d : logext (kind_in [KTransition; KCost]) m (branch_on st_eqb inp m id d).
+  Proof.
+    eexists [_; _]. split; [rewrite branch_on_log; reflexivity|].
+    constructor; [right; left; reflexivity|]. constructor; [left; reflexivity|constructor].
+  Qed.
+
+  Lemma logext_expand_node var m id :
+    logext (kind_in [KDomain; KTransition; KCost]) m (expand_node st_eqb inp var m id).
+  Proof.
+    unfold expand_node. destruct (_ >? _)%Z; [|apply logext_same; reflexivity].
+    apply logext_fold.
+    - one_event.
+    - intros a x. eapply logext_weaken; [|apply logext_branch_on].
+      intros ev [H|[H|[]]]; unfold kind_in; rewrite <- H; simpl; auto.
+  Qed.
+
+  (* ---- the layer loop *)
+  Definition stage_kinds : list evkind := [KCacheGet; KDomQuery; KMerge; KRelax].
+  Definition expand_kinds : list evkind := [KDomain; KTransition; KCost].
+
+  Lemma kind_in_incl ks ks' ev : incl ks ks' -> kind_in ks ev -> kind_in ks' ev.
+  Proof. unfold kind_in. auto. Qed.
+
+  Lemma stages_log m curr m1 l1 m2 l2 m3 l3 :
+    prefilter m curr = (m1, l1) -> filter_with_dominance inp m1 l1 = (m2, l2) ->
+    squash_if_needed st_eqb inp m2 l2 = (m3, l3) ->
+    exists kc kd ks, m_log m3 = ks ++ kd ++ kc ++ m_log m /\
+      Forall (kind_in [KCacheGet]) kc /\ Forall (kind_in [KDomQuery]) kd /\ Forall (kind_in [KMerge; KRelax]) ks.
+  Proof.
+    intros H1 H2 H3.
+    assert (L1 : logext (kind_in [KCacheGet]) m m1).
+    { unfold prefilter in H1. destruct (_ <? _); [eapply logext_filter_with_cache; eauto|].
+      inversion H1; subst; apply logext_refl. }
+    apply logext_filter_with_dominance in H2. apply logext_squash_if_needed in H3.
+    destruct L1 as [kc [E1 F1]]. destruct H2 as [kd [E2 F2]]. destruct H3 as [ks [E3 F3]].
+    exists kc, kd, ks. rewrite E3, E2, E1. auto.
+  Qed.
+
+  Lemma stages_logext m curr m1 l1 m2 l2 m3 l3 :
+    prefilter m curr = (m1, l1) -> filter_with_dominance inp m1 l1 = (m2, l2) ->
+    squash_if_needed st_eqb inp m2 l2 = (m3, l3) -> logext (kind_in stage_kinds) m m3.
+  Proof.
+    intros H1 H2 H3. destruct (stages_log _ _ _ _ _ _ _ _ H1 H2 H3) as [kc [kd [ks [E [F1 [F2 F3]]]]]].
+    exists (ks ++ kd ++ kc). split; [rewrite E, <- !app_assoc; reflexivity|].
+    repeat (apply Forall_app; split);
+      (eapply Forall_impl; [|eassumption]); intros ev; apply kind_in_incl;
+      unfold stage_kinds; intros x Hx; simpl in *; intuition.
+  Qed.
+
+  Lemma move_clean_log_depth m m' ol :
+    move_to_next_layer_clean st_eqb inp m = (m', ol) ->
+    logext (kind_in stage_kinds) m m' /\ m_curr_depth m' = m_curr_depth m /\ m_polls m' = m_polls m.
+  Proof.
+    rewrite move_clean_unfold. destruct (m_next m) as [|x nx].
+    - intros H; inversion H; subst. split; [apply logext_same; reflexivity|split; reflexivity].
+    - destruct (prefilter _ _) as [m1 l1] eqn:H1.
+      destruct (filter_with_dominance _ _ _) as [m2 l2] eqn:H2.
+      destruct (squash_if_needed _ _ _ _) as [m3 l3] eqn:H3.
+      intros H; inversion H; subst.
+      destruct (stages_layers _ _ _ _ _ _ _ _ H1 H2 H3) as [_ [E _]].
+      pose proof (stages_logext _ _ _ _ _ _ _ _ H1 H2 H3) as L.
+      split; [|split].
+      + destruct L as [k [EL F]]. exists k. split; auto.
+      + simpl. rewrite (ext_depth _ _ E). reflexivity.
+      + simpl. rewrite (ext_polls _ _ E). reflexivity.
+  Qed.
+
+  Lemma pooled_start_log m var : m_log (pooled_start m var) = m_log m.
+  Proof. unfold pooled_start. simpl. apply fold_left_proj. intros; reflexivity. Qed.
+  Lemma pooled_start_depth m var : m_curr_depth (pooled_start m var) = m_curr_depth m.
+  Proof. unfold pooled_start. simpl. apply fold_left_proj. intros; reflexivity. Qed.
+  Lemma pooled_start_polls m var : m_polls (pooled_start m var) = m_polls m.
+  Proof. unfold pooled_start. simpl. apply fold_left_proj. intros; reflexivity. Qed.
+
+  Lemma move_pooled_log_depth m var m' ol :
+    move_to_next_layer_pooled st_eqb inp m var = (m', ol) ->
+    logext (kind_in stage_kinds) m m' /\ m_curr_depth m' = m_curr_depth m /\ m_polls m' = m_polls m.
+  Proof.
+    rewrite move_pooled_unfold. cbv zeta.
+    destruct (prefilter _ _) as [m1 l1] eqn:H1.
+    destruct (filter_with_dominance _ _ _) as [m2 l2] eqn:H2.
+    destruct (squash_if_needed _ _ _ _) as [m3 l3] eqn:H3.
+    intros H; inversion H; subst.
+    destruct (stages_layers _ _ _ _ _ _ _ _ H1 H2 H3) as [_ [E _]].
+    pose proof (stages_logext _ _ _ _ _ _ _ _ H1 H2 H3) as L.
+    assert (G : logext (kind_in stage_kinds) m m3 /\ m_curr_depth m3 = m_curr_depth m /\ m_polls m3 = m_polls m).
+    { split; [|split].
+      - destruct L as [k [EL F]]. exists k. split; auto. rewrite EL, pooled_start_log. reflexivity.
+      - rewrite (ext_depth _ _ E). apply pooled_start_depth.
+      - rewrite (ext_polls _ _ E). apply pooled_start_polls. }
+    match goal with |- context [match ?c with [] => _ | _ => _ end] => destruct c end; exact G.
+  Qed.
+
+  Lemma logext_fold_expand var l m :
+    logext (kind_in expand_kinds) m (fold_left (expand_node st_eqb inp var) l m).
+  Proof. apply logext_fold; [apply logext_refl|]. intros; apply logext_expand_node. Qed.
+
+  (* the depths handed to next_variable, in call order *)
+  Fixpoint nextvar_depths (evs : list (event St)) : list nat :=
+    match evs with
+    | [] => []
+    | EvNextVar d _ _ :: r => d :: nextvar_depths r
+    | _ :: r => nextvar_depths r
+    end.
+
+  Lemma nextvar_depths_app a b : nextvar_depths (a ++ b) = nextvar_depths a ++ nextvar_depths b.
+  Proof. induction a as [|x a IH]; simpl; auto. destruct x; simpl; rewrite ?IH; auto. Qed.
+
+  Lemma nextvar_depths_none k : Forall (fun ev => kind_of ev <> KNextVar) k -> nextvar_depths k = [].
+  Proof.
+    induction 1 as [|x k Hx _ IH]; simpl; auto. destruct x; simpl in *; auto. congruence.
+  Qed.
+
+  Lemma nextvar_depths_kinds ks k :
+    ~ In KNextVar ks -> Forall (kind_in ks) k -> nextvar_depths (rev k) = [].
+  Proof.
+    intros Hn F. apply nextvar_depths_none. apply Forall_rev.
+    eapply Forall_impl; [|exact F]. intros ev Hin Heq. apply Hn. rewrite <- Heq. exact Hin.
+  Qed.
+
+  (* every logged next_variable call reports the result of the callback on the logged arguments *)
+  Definition nextvar_faithful (ev : event St) : Prop :=
+    match ev with EvNextVar d sts ov => ov = next_variable pb d sts | _ => True end.
+
+  Lemma kinds_nextvar_faithful ks k :
+    ~ In KNextVar ks -> Forall (kind_in ks) k -> Forall nextvar_faithful k.
+  Proof.
+    intros Hn F. eapply Forall_impl; [|exact F]. intros ev Hin.
+    destruct ev; simpl; auto. exfalso; apply Hn; exact Hin.
+  Qed.
+
+  Definition loop_move (m : mddT) (var : nat) : mddT * option (list nat) :=
+    if is_pooled flv then
+      match m_next m with [] => (m, None) | _ => move_to_next_layer_pooled st_eqb inp m var end
+    else move_to_next_layer_clean st_eqb inp m.
+
+  Lemma loop_move_log_depth m var m' ol :
+    loop_move m var = (m', ol) ->
+    logext (kind_in stage_kinds) m m' /\ m_curr_depth m' = m_curr_depth m /\ m_polls m' = m_polls m.
+  Proof.
+    unfold loop_move. destruct (is_pooled flv).
+    - destruct (m_next m).
+      + intros H; inversion H; subst. split; [apply logext_refl|split; reflexivity].
+      + apply move_pooled_log_depth.
+    - apply move_clean_log_depth.
+  Qed.
+
+  (* one iteration of the loop, as an equation *)
+  Lemma layer_loop_iteration fuel m :
+    let depth := m_curr_depth m in
+    let sts := map (fun id => state_of m id) (m_next m) in
+    let ov := next_variable pb depth sts in
+    let m0 := add_log m (EvNextVar depth sts ov) in
+    layer_loop st_eqb inp (S fuel) m =
+    match ov with
+    | None => (m0, LoopDone)
+    | Some var =>
+        let m1 := with_polls m0 (S (m_polls m0)) in
+        if Nat.ltb 0 (ci_cutoff inp) && Nat.leb (ci_cutoff inp) (m_polls m1) then (m1, LoopCut)
+        else let '(m2, ol) := loop_move m1 var in
+             match ol with
+             | None => (m2, LoopDone)
+             | Some l => let m3 := fold_left (expand_node st_eqb inp var) l m2 in
+                         layer_loop st_eqb inp fuel (with_depth m3 (S (m_curr_depth m3)))
+             end
+    end.
+  Proof.
+    reflexivity.
+  Qed.
+
+  Theorem layer_loop_nextvar : forall fuel m m' e,
+    layer_loop st_eqb inp fuel m = (m', e) ->
+    exists k n, m_log m' = k ++ m_log m /\
+      nextvar_depths (rev k) = seq (m_curr_depth m) n /\
+      Forall nextvar_faithful k /\
+      m_curr_depth m' + (match e with LoopOutOfFuel => 0 | _ => 1 end) = m_curr_depth m + n.
+  Proof.
+    induction fuel as [|fuel IH]; intros m m' e H.
+    - simpl in H. inversion H; subst. exists [], 0. simpl. repeat split; auto.
+    - rewrite layer_loop_iteration in H. cbv zeta in H.
+      set (sts := map (fun id => state_of m id) (m_next m)) in *.
+      destruct (next_variable pb (m_curr_depth m) sts) as [var|] eqn:Hov.
+      2:{ inversion H; subst. exists [EvNextVar (m_curr_depth m) sts None], 1. simpl.
+          repeat split; auto. constructor; simpl; auto. }
+      set (m0 := add_log m (EvNextVar (m_curr_depth m) sts (Some var))) in *.
+      set (m1 := with_polls m0 (S (m_polls m0))) in *.
+      destruct (_ && _).
+      { inversion H; subst. exists [EvNextVar (m_curr_depth m) sts (Some var)], 1. simpl.
+        repeat split; auto. constructor; simpl; auto. }
+      destruct (loop_move m1 var) as [m2 ol] eqn:Hmv.
+      apply loop_move_log_depth in Hmv. destruct Hmv as [[k2 [E2 F2]] [D2 _]].
+      assert (N2 : ~ In KNextVar stage_kinds) by (simpl; intuition discriminate).
+      change (m_curr_depth m1) with (m_curr_depth m) in D2.
+      change (m_log m1) with (EvNextVar (m_curr_depth m) sts (Some var) :: m_log m) in E2.
+      destruct ol as [l|].
+      2:{ inversion H; subst. exists (k2 ++ [EvNextVar (m_curr_depth m) sts (Some var)]), 1. repeat split.
+          - rewrite E2, <- app_assoc. reflexivity.
+          - rewrite rev_app_distr. simpl. rewrite (nextvar_depths_kinds _ _ N2 F2). reflexivity.
+          - apply Forall_app; split; [eapply kinds_nextvar_faithful; eauto|].
+            constructor; simpl; auto.
+          - rewrite D2. reflexivity. }
+      apply IH in H. destruct H as [k [n [E [Hd [F Hdep]]]]].
+      destruct (logext_fold_expand var l m2) as [k3 [E3 F3]].
+      assert (N3 : ~ In KNextVar expand_kinds) by (simpl; intuition discriminate).
+      simpl m_curr_depth in Hd, Hdep. simpl m_log in E.
+      rewrite (ext_depth _ _ (ext_fold_expand var l m2)), D2 in Hd, Hdep.
+      exists (k ++ k3 ++ k2 ++ [EvNextVar (m_curr_depth m) sts (Some var)]), (S n). repeat split.
+      + rewrite E, E3, E2, <- !app_assoc. reflexivity.
+      + rewrite !rev_app_distr. simpl rev at 1. rewrite <- !app_assoc, !nextvar_depths_app.
+        rewrite (nextvar_depths_kinds _ _ N2 F2), (nextvar_depths_kinds _ _ N3 F3), Hd. reflexivity.
+      + repeat (apply Forall_app; split); auto.
+        * apply (kinds_nextvar_faithful _ _ N3 F3).
+        * apply (kinds_nextvar_faithful _ _ N2 F2).
+        * constructor; simpl; auto.
+      + lia.
+  Qed.
+
+  (* the first call of an iteration gets the current depth and the states of the next layer *)
+  Theorem layer_loop_first_call fuel m m' e :
+    layer_loop st_eqb inp (S fuel) m = (m', e) ->
+    let depth := m_curr_depth m in
+    let sts := map (fun id => state_of m id) (m_next m) in
+    exists k, m_log m' = k ++ EvNextVar depth sts (next_variable pb depth sts) :: m_log m.
+  Proof.
+    intros H depth sts. rewrite layer_loop_iteration in H. cbv zeta in H. fold depth sts in H.
+    destruct (next_variable pb depth sts) as [var|] eqn:Hov.
+    2:{ inversion H; subst. exists []. reflexivity. }
+    set (m0 := add_log m (EvNextVar depth sts (Some var))) in *.
+    set (m1 := with_polls m0 (S (m_polls m0))) in *.
+    destruct (_ && _).
+    { inversion H; subst. exists []. reflexivity. }
+    destruct (loop_move m1 var) as [m2 ol] eqn:Hmv.
+    apply loop_move_log_depth in Hmv. destruct Hmv as [[k2 [E2 F2]] _].
+    destruct ol as [l|].
+    2:{ inversion H; subst. exists k2. exact E2. }
+    apply layer_loop_nextvar in H. destruct H as [k [n [E _]]].
+    destruct (logext_fold_expand var l m2) as [k3 [E3 F3]].
+    exists (k ++ k3 ++ k2). simpl m_log in E. rewrite E, E3, E2, <- !app_assoc. reflexivity.
+  Qed.
+
+  Lemma initialize_log c ds polls : m_log (initialize inp c ds polls) = [].
+  Proof. reflexivity. Qed.
+  Lemma initialize_depth c ds polls : m_curr_depth (initialize inp c ds polls) = sp_depth (ci_root inp).
+  Proof. reflexivity. Qed.
+
+  (* ================================================================ (4) identifier well-formedness *)
+  Definition ids_ok (n : nat) (l : list nat) : Prop := Forall (fun id => id < n) l.
+  Definition oid_ok (n : nat) (o : option nat) : Prop := match o with Some id => id < n | None => True end.
+  Definition node_ok (ne : nat) (n : nodeT) : Prop := oid_ok ne (n_best n) /\ ids_ok ne (n_inb n).
+  Definition edge_ok (nn : nat) (e : edge) : Prop := e_from e < nn /\ e_to e < nn.
+
+  Lemma ids_ok_mono n n' l : n <= n' -> ids_ok n l -> ids_ok n' l.
+  Proof. intros H F. eapply Forall_impl; [|exact F]. simpl; intros; lia. Qed.
+  Lemma oid_ok_mono n n' o : n <= n' -> oid_ok n o -> oid_ok n' o.
+  Proof. destruct o; simpl; intros; auto; lia. Qed.
+  Lemma node_ok_mono n n' x : n <= n' -> node_ok n x -> node_ok n' x.
+  Proof. intros H [A B]. split; [eapply oid_ok_mono|eapply ids_ok_mono]; eauto. Qed.
+  Lemma edge_ok_mono n n' e : n <= n' -> edge_ok n e -> edge_ok n' e.
+  Proof. unfold edge_ok; intros; lia. Qed.
+  Lemma ids_ok_incl n l l' : incl l' l -> ids_ok n l -> ids_ok n l'.
+  Proof. unfold ids_ok. rewrite !Forall_forall. auto. Qed.
+  Lemma ids_ok_In n l id : ids_ok n l -> In id l -> id < n.
+  Proof. unfold ids_ok. rewrite Forall_forall. auto. Qed.
+  Lemma ids_ok_app n l l' : ids_ok n l -> ids_ok n l' -> ids_ok n (l ++ l').
+  Proof. intros; apply Forall_app; auto. Qed.
+
+  (* every identifier stored anywhere in the diagram is in range; moreover the next layer has no
+     duplicates and the inbound lists agree with the edge table *)
+  Record wf (m : mddT) : Prop := {
+    wf_next : ids_ok (length (m_nodes m)) (m_next m);
+    wf_next_nodup : NoDup (m_next m);
+    wf_layers : Forall (ids_ok (length (m_nodes m))) (m_layers m);
+    wf_cutset : ids_ok (length (m_nodes m)) (m_cutset m);
+    wf_best : oid_ok (length (m_nodes m)) (m_best m);
+    wf_best_exact : oid_ok (length (m_nodes m)) (m_best_exact m);
+    wf_nodes : Forall (node_ok (length (m_edges m))) (m_nodes m);
+    wf_edges : Forall (edge_ok (length (m_nodes m))) (m_edges m);
+    wf_inb_to : forall id eid, id < length (m_nodes m) -> In eid (n_inb (gnode m id)) ->
+                               e_to (get_edge m eid) = id }.
+
+  Lemma wf_frame m m' :
+    m_nodes m' = m_nodes m -> m_edges m' = m_edges m -> m_next m' = m_next m ->
+    m_layers m' = m_layers m -> m_cutset m' = m_cutset m -> m_best m' = m_best m ->
+    m_best_exact m' = m_best_exact m -> wf m -> wf m'.
+  Proof.
+    intros Hn He Hx Hl Hc Hb Hbe [W1 W2 W3 W4 W5 W6 W7 W8 W9].
+    constructor; unfold get_node, get_edge in *; rewrite ?Hn, ?He, ?Hx, ?Hl, ?Hc, ?Hb, ?Hbe; auto.
+  Qed.
+
+  Lemma wf_add_log m e : wf m -> wf (add_log m e).
+  Proof. apply wf_frame; reflexivity. Qed.
+  Lemma wf_set_crash m : wf m -> wf (set_crash m).
+  Proof. apply wf_frame; reflexivity. Qed.
+  Lemma wf_with_cache m c : wf m -> wf (with_cache m c).
+  Proof. apply wf_frame; reflexivity. Qed.
+  Lemma wf_with_dom m c : wf m -> wf (with_dom m c).
+  Proof. apply wf_frame; reflexivity. Qed.
+  Lemma wf_with_lel_exact m l e : wf m -> wf (with_lel_exact m l e).
+  Proof. apply wf_frame; reflexivity. Qed.
+  Lemma wf_with_polls m p : wf m -> wf (with_polls m p).
+  Proof. apply wf_frame; reflexivity. Qed.
+  Lemma wf_with_depth m d : wf m -> wf (with_depth m d).
+  Proof. apply wf_frame; reflexivity. Qed.
+
+  (* node updates that keep the links *)
+  Definition keeps_links (f : nodeT -> nodeT) : Prop :=
+    forall n, n_best (f n) = n_best n /\ n_inb (f n) = n_inb n.
+
+  Lemma wf_upd_node m k f : keeps_links f -> wf m -> wf (upd_node m k f).
+  Proof.
+    intros Hf [W1 W2 W3 W4 W5 W6 W7 W8 W9].
+    constructor; simpl; rewrite ?upd_nth_length; auto.
+    - apply Forall_upd_nth; auto. intros a [A B]. destruct (Hf a) as [E1 E2].
+      split; [rewrite E1|rewrite E2]; auto.
+    - intros id eid Hid Hin. apply W9; auto.
+      rewrite <- (get_node_upd_node_proj (@n_inb St) m k f id); auto.
+      intros n; apply Hf.
+  Qed.
+
+  Lemma wf_fold_upd_node {B} (l : list B) (key : mddT -> B -> nat) (g : mddT -> B -> nodeT -> nodeT) m :
+    (forall a x, keeps_links (g a x)) -> wf m ->
+    wf (fold_left (fun a x => upd_node a (key a x) (g a x)) l m).
+  Proof. intros Hg. apply fold_left_inv. intros a x _ Ha. apply wf_upd_node; auto. Qed.
+
+  Lemma get_edge_app1 (m : mddT) (es : list edge) k eid :
+    eid < length es -> nth eid (es ++ k) default_edge = nth eid es default_edge.
+  Proof. intros; apply app_nth1; auto. Qed.
+
+  Lemma wf_append_edge m e :
+    wf m -> e_from e < length (m_nodes m) -> e_to e < length (m_nodes m) -> wf (append_edge inp m e).
+  Proof.
+    intros [W1 W2 W3 W4 W5 W6 W7 W8 W9] Hfrom Hto.
+    constructor; simpl m_next; simpl m_layers; simpl m_cutset; simpl m_best; simpl m_best_exact;
+      rewrite ?append_edge_nodes_length; auto.
+    - (* nodes *)
+      simpl. rewrite app_length. simpl length.
+      apply Forall_upd_nth.
+      + intros a [A B]. split; simpl.
+        * destruct (_ >=? _)%Z; simpl; [lia|]. eapply oid_ok_mono; [|exact A]. lia.
+        * constructor; [lia|]. eapply ids_ok_mono; [|exact B]. lia.
+      + eapply Forall_impl; [|exact W7]. intros a. apply node_ok_mono. lia.
+    - (* edges *)
+      simpl m_edges. apply Forall_app. split; auto. constructor; auto. split; auto.
+    - (* inbound lists *)
+      intros id eid Hid Hin.
+      assert (Hcases : eid = length (m_edges m) /\ id = e_to e \/ In eid (n_inb (gnode m id))).
+      { unfold get_node in Hin. simpl m_nodes in Hin.
+        destruct (Nat.eq_dec (e_to e) id) as [Heq|Hne].
+        - subst id. rewrite nth_upd_nth_same in Hin by exact Hto. simpl in Hin.
+          destruct Hin as [Hin|Hin]; [left; split; auto|right; exact Hin].
+        - rewrite nth_upd_nth_other in Hin by exact Hne. right; exact Hin. }
+      unfold get_edge. simpl m_edges.
+      destruct Hcases as [[-> ->]|Hold].
+      + rewrite app_nth2 by lia. rewrite Nat.sub_diag. reflexivity.
+      + assert (Hlt : eid < length (m_edges m)).
+        { rewrite Forall_forall in W7. destruct (W7 (gnode m id)) as [_ B].
+          - apply nth_In. exact Hid.
+          - eapply ids_ok_In; eauto. }
+        rewrite app_nth1 by exact Hlt. apply W9; auto.
+  Qed.
+
+  Lemma wf_add_node m n :
+    wf m -> n_best n = None -> n_inb n = [] -> wf (with_nodes m (m_nodes m ++ [n])).
+  Proof.
+    intros [W1 W2 W3 W4 W5 W6 W7 W8 W9] Hb Hi.
+    assert (Hle : length (m_nodes m) <= length (m_nodes m ++ [n])) by (rewrite app_length; lia).
+    constructor; simpl; auto.
+    - eapply ids_ok_mono; eauto.
+    - eapply Forall_impl; [|exact W3]. intros a. apply ids_ok_mono; auto.
+    - eapply ids_ok_mono; eauto.
+    - eapply oid_ok_mono; eauto.
+    - eapply oid_ok_mono; eauto.
+    - apply Forall_app. split; auto. constructor; auto. split; [rewrite Hb; simpl; auto|rewrite Hi; constructor].
+    - eapply Forall_impl; [|exact W8]. intros a. apply edge_ok_mono; auto.
+    - intros id eid Hid Hin. unfold get_node in Hin. simpl m_nodes in Hin.
+      rewrite app_length in Hid. simpl in Hid.
+      destruct (Nat.eq_dec id (length (m_nodes m))) as [->|Hne].
+      + rewrite app_nth2 in Hin by lia. rewrite Nat.sub_diag in Hin. simpl in Hin.
+        rewrite Hi in Hin. destruct Hin.
+      + rewrite app_nth1 in Hin by lia. apply W9; auto. lia.
+  Qed.
+
+  Lemma wf_with_next m l : wf m -> ids_ok (length (m_nodes m)) l -> NoDup l -> wf (with_next m l).
+  Proof. intros [W1 W2 W3 W4 W5 W6 W7 W8 W9] H1 H2. constructor; simpl; auto. Qed.
+
+  Lemma wf_push_layer m ids e : wf m -> ids_ok (length (m_nodes m)) ids -> wf (push_layer m ids e).
+  Proof.
+    intros [W1 W2 W3 W4 W5 W6 W7 W8 W9] H1. constructor; simpl; auto.
+    apply Forall_app. split; auto.
+  Qed.
+
+  Lemma wf_with_cutset m cs : wf m -> ids_ok (length (m_nodes m)) cs -> wf (with_cutset m cs).
+  Proof. intros [W1 W2 W3 W4 W5 W6 W7 W8 W9] H1. constructor; simpl; auto. Qed.
+
+  Lemma wf_with_best m b be :
+    wf m -> oid_ok (length (m_nodes m)) b -> oid_ok (length (m_nodes m)) be -> wf (with_best m b be).
+  Proof. intros [W1 W2 W3 W4 W5 W6 W7 W8 W9] H1 H2. constructor; simpl; auto. Qed.
+
+  Lemma wf_initialize c ds polls : wf (initialize inp c ds polls).
+  Proof.
+    constructor; simpl; auto.
+    - repeat constructor.
+    - constructor; [intros []|constructor].
+    - constructor.
+    - constructor; [|constructor]. split; simpl; auto. constructor.
+    - intros id eid Hid Hin. unfold get_node in Hin. simpl in Hin.
+      destruct id as [|id]; [destruct Hin|lia].
+  Qed.
+
+  (* ---- branch_on / expand_node *)
+  Lemma NoDup_app_fresh {A} (l : list A) x : NoDup l -> ~ In x l -> NoDup (l ++ [x]).
+  Proof.
+    induction l as [|y l IH]; simpl; intros Hn Hx.
+    - constructor; [intros []|constructor].
+    - inversion Hn; subst. constructor.
+      + rewrite in_app_iff. simpl. intuition.
+      + apply IH; auto.
+  Qed.
+
+  Lemma wf_branch_on m id d : wf m -> id < length (m_nodes m) -> wf (branch_on st_eqb inp m id d).
+  Proof.
+    intros W Hid. unfold branch_on.
+    set (s := state_of m id). set (s' := transition pb s d). set (c := transition_cost pb s s' d).
+    set (m2 := add_log (add_log m (EvTransition s d s')) (EvCost s s' d c)).
+    assert (W2 : wf m2) by (apply wf_add_log, wf_add_log, W).
+    destruct (find_next st_eqb inp m2 s') as [nid|] eqn:Hf.
+    - apply wf_append_edge; auto.
+      unfold find_next in Hf. apply find_some in Hf. destruct Hf as [Hin _].
+      simpl. eapply ids_ok_In; [apply (wf_next _ W2)|exact Hin].
+    - set (n := {| n_state := s'; n_vtop := _ |}).
+      assert (W3 : wf (with_nodes m2 (m_nodes m2 ++ [n]))) by (apply wf_add_node; auto).
+      assert (L3 : length (m_nodes (with_nodes m2 (m_nodes m2 ++ [n]))) = S (length (m_nodes m)))
+        by (simpl; rewrite app_length; simpl; lia).
+      apply wf_with_next.
+      + apply wf_append_edge; auto; rewrite L3; simpl; lia.
+      + rewrite append_edge_nodes_length, L3, append_edge_next. simpl m_next.
+        apply ids_ok_app; [eapply ids_ok_mono; [|apply (wf_next _ W)]; lia|].
+        constructor; [simpl; lia|constructor].
+      + rewrite append_edge_next. simpl m_next.
+        apply NoDup_app_fresh; [apply (wf_next_nodup _ W)|].
+        intros Hin. pose proof (ids_ok_In _ _ _ (wf_next _ W) Hin). simpl in H. lia.
+  Qed.
+
+  Lemma wf_expand_node var m id :
+    wf m -> id < length (m_nodes m) -> wf (expand_node st_eqb inp var m id).
+  Proof.
+    intros W Hid. unfold expand_node.
+    set (m1 := upd_node m id _).
+    assert (W1 : wf m1) by (apply wf_upd_node; [intros n; split; reflexivity|exact W]).
+    assert (L1 : length (m_nodes m1) = length (m_nodes m)) by (simpl; apply upd_nth_length).
+    destruct (_ >? _)%Z; [|exact W1].
+    apply (fold_left_inv (fun a => wf a /\ id < length (m_nodes a))).
+    - intros a x _ [Wa Ha]. split; [apply wf_branch_on; auto|].
+      pose proof (ext_nodes _ _ (ext_branch_on a id (mkdec var x))). unfold mkdec in H.
+      eapply Nat.lt_le_trans; [exact Ha|exact H].
+    - split; [apply wf_add_log; exact W1|].
+      change (id < length (m_nodes m1)). rewrite L1. exact Hid.
+  Qed.
+
+  Lemma wf_fold_expand var l : forall m,
+    wf m -> ids_ok (length (m_nodes m)) l -> wf (fold_left (expand_node st_eqb inp var) l m).
+  Proof.
+    induction l as [|id l IH]; simpl; intros m W Hl; auto.
+    inversion Hl; subst. apply IH.
+    - apply wf_expand_node; auto.
+    - eapply ids_ok_mono; [|eassumption]. apply (ext_nodes _ _ (ext_expand_node var m id)).
+  Qed.
+
+  (* ---- filters *)
+  Lemma wf_cache_get m s d m' r : cache_get st_eqb inp m s d = (m', r) -> wf m -> wf m'.
+  Proof.
+    unfold cache_get. destruct (ci_use_cache inp).
+    - destruct (get_threshold _ _ _ _); intros H W; inversion H; subst.
+      + apply wf_add_log; auto.
+      + apply wf_set_crash, wf_add_log; auto.
+    - intros H W; inversion H; subst. apply wf_add_log; auto.
+  Qed.
+
+  Lemma wf_cache_update m s d v e : wf m -> wf (cache_update st_eqb inp m s d v e).
+  Proof.
+    intros W. unfold cache_update. destruct (ci_use_cache inp).
+    - destruct (update_threshold _ _ _ _ _ _).
+      + apply wf_with_cache, wf_add_log; auto.
+      + apply wf_set_crash, wf_add_log; auto.
+    - apply wf_add_log; auto.
+  Qed.
+
+  Lemma wf_dom_query m s d v m' r : dom_query inp m s d v = (m', r) -> wf m -> wf m'.
+  Proof.
+    unfold dom_query. destruct (ci_domrule inp) as [[[[key nd] coord] usev]|].
+    - destruct (is_dominated_or_insert _ _ _ _ _ _ _ _ _) as [[st' r']|]; intros H W; inversion H; subst.
+      + apply wf_add_log, wf_with_dom; auto.
+      + apply wf_add_log, wf_set_crash; auto.
+    - intros H W; inversion H; subst. apply wf_add_log; auto.
+  Qed.
+
+  (* [sub l' l]: l' keeps some elements of l (used for the retain-style filters) *)
+  Definition sub (l' l : list nat) : Prop := incl l' l /\ (NoDup l -> NoDup l').
+
+  Lemma sub_refl l : sub l l.
+  Proof. split; [apply incl_refl|auto]. Qed.
+  Lemma sub_trans l1 l2 l3 : sub l1 l2 -> sub l2 l3 -> sub l1 l3.
+  Proof. intros [A B] [C D]. split; [eapply incl_tran; eauto|auto]. Qed.
+  Lemma sub_skip x l' l : sub l' l -> sub l' (x :: l).
+  Proof.
+    intros [A B]. split; [apply incl_tl; auto|]. intros H; inversion H; auto.
+  Qed.
+  Lemma sub_keep x l' l : sub l' l -> sub (x :: l') (x :: l).
+  Proof.
+    intros [A B]. split.
+    - intros y [->|Hy]; [left; auto|right; auto].
+    - intros H; inversion H; subst. constructor; auto.
+  Qed.
+
+  Lemma insert_by_NoDup cmp (x : nat) l : NoDup l -> ~ In x l -> NoDup (insert_by cmp x l).
+  Proof.
+    induction l as [|y l IH]; simpl; intros Hn Hx.
+    - constructor; auto.
+    - destruct (is_gt _).
+      + inversion Hn; subst. constructor.
+        * rewrite insert_by_In. intros [->|H]; [apply Hx; left; auto|auto].
+        * apply IH; auto.
+      + constructor; auto.
+  Qed.
+
+  Lemma sub_sort_by cmp l : sub (sort_by cmp l) l.
+  Proof.
+    split.
+    - intros y Hy. apply sort_by_In in Hy. exact Hy.
+    - induction l as [|x l IH]; simpl; intros H; [constructor|].
+      inversion H; subst. apply insert_by_NoDup; auto. rewrite sort_by_In. auto.
+  Qed.
+
+  Lemma NoDup_app_inv {A} (a b : list A) :
+    NoDup (a ++ b) -> NoDup a /\ NoDup b /\ (forall x, In x a -> ~ In x b).
+  Proof.
+    induction a as [|y a IH]; simpl; intros H.
+    - split; [constructor|split; auto].
+    - inversion H; subst. destruct (IH H3) as [Ha [Hb Hd]]. split; [|split; auto].
+      + constructor; auto. intros Hy. apply H2. apply in_or_app; left; exact Hy.
+      + intros x [->|Hx]; [|apply Hd; exact Hx].
+        intros Hxb. apply H2. apply in_or_app; right; exact Hxb.
+  Qed.
+
+  Lemma sub_firstn n (l : list nat) : sub (firstn n l) l.
+  Proof.
+    split.
+    - intros y Hy. rewrite <- (firstn_skipn n l). apply in_or_app; left; exact Hy.
+    - intros H. rewrite <- (firstn_skipn n l) in H. apply NoDup_app_inv in H. tauto.
+  Qed.
+
+  Lemma sub_skipn n (l : list nat) : sub (skipn n l) l.
+  Proof.
+    split.
+    - intros y Hy. rewrite <- (firstn_skipn n l). apply in_or_app; right; exact Hy.
+    - intros H. rewrite <- (firstn_skipn n l) in H. apply NoDup_app_inv in H. tauto.
+  Qed.
+
+  Lemma sub_filter p (l : list nat) : sub (filter p l) l.
+  Proof. split; [apply incl_filter|apply NoDup_filter]. Qed.
+
+  Lemma wf_filter_with_cache l : forall m m' l',
+    filter_with_cache st_eqb inp m l = (m', l') -> wf m -> wf m' /\ sub l' l.
+  Proof.
+    induction l as [|id l IH]; simpl; intros m m' l' H W.
+    - inversion H; subst. split; [auto|apply sub_refl].
+    - destruct (cache_get _ _ _ _ _) as [m1 th] eqn:Hc. apply wf_cache_get in Hc; auto.
+      destruct th as [t|].
+      + destruct (_ >? _)%Z.
+        * destruct (filter_with_cache _ _ m1 l) as [m2 r] eqn:Hf. inversion H; subst.
+          destruct (IH _ _ _ Hf Hc). split; [auto|apply sub_keep; auto].
+        * apply IH in H.
+          -- destruct H. split; [auto|apply sub_skip; auto].
+          -- apply wf_upd_node; [intros n; split; reflexivity|exact Hc].
+      + destruct (filter_with_cache _ _ m1 l) as [m2 r] eqn:Hf. inversion H; subst.
+        destruct (IH _ _ _ Hf Hc). split; [auto|apply sub_keep; auto].
+  Qed.
+
+  Lemma wf_dom_retain l : forall m m' l', dom_retain inp m l = (m', l') -> wf m -> wf m' /\ sub l' l.
+  Proof.
+    induction l as [|id l IH]; simpl; intros m m' l' H W.
+    - inversion H; subst. split; [auto|apply sub_refl].
+    - destruct (fl_is_exact _).
+      + destruct (dom_query _ _ _ _ _) as [m1 r] eqn:Hq. apply wf_dom_query in Hq; auto.
+        destruct (dc_dominated r).
+        * apply IH in H.
+          -- destruct H. split; [auto|apply sub_skip; auto].
+          -- apply wf_upd_node; [intros n; split; reflexivity|exact Hq].
+        * destruct (dom_retain _ m1 l) as [m2 k] eqn:Hf. inversion H; subst.
+          destruct (IH _ _ _ Hf Hq). split; [auto|apply sub_keep; auto].
+      + destruct (dom_retain _ m l) as [m2 k] eqn:Hf. inversion H; subst.
+        destruct (IH _ _ _ Hf W). split; [auto|apply sub_keep; auto].
+  Qed.
+
+  Lemma wf_filter_with_dominance m l m' l' :
+    filter_with_dominance inp m l = (m', l') -> wf m -> wf m' /\ sub l' l.
+  Proof.
+    unfold filter_with_dominance. intros H W. apply wf_dom_retain in H; auto.
+    destruct H as [W' S]. split; auto. eapply sub_trans; [exact S|apply sub_sort_by].
+  Qed.
+
+  Lemma wf_prefilter m l m' l' : prefilter m l = (m', l') -> wf m -> wf m' /\ sub l' l.
+  Proof.
+    unfold prefilter. destruct (_ <? _); [apply wf_filter_with_cache|].
+    intros H W; inversion H; subst. split; [auto|apply sub_refl].
+  Qed.
+
+  (* ---- squash *)
+  Lemma wf_note_squash m : wf m -> wf (note_squash inp m).
+  Proof.
+    intros W. unfold note_squash. destruct (is_pooled _); [apply wf_with_lel_exact; auto|].
+    destruct (m_lel m); [auto|apply wf_with_lel_exact; auto].
+  Qed.
+
+  Lemma wf_mark_deleted m ids : wf m -> wf (mark_deleted m ids).
+  Proof.
+    unfold mark_deleted. apply fold_left_inv. intros a x _ Wa.
+    apply wf_upd_node; auto. intros n; split; reflexivity.
+  Qed.
+
+  Lemma wf_restrict_layer m l m' l' :
+    restrict_layer inp m l = (m', l') -> wf m -> wf m' /\ sub l' l.
+  Proof.
+    unfold restrict_layer. intros H W; inversion H; subst. split.
+    - apply wf_mark_deleted, wf_note_squash, W.
+    - eapply sub_trans; [apply sub_firstn|apply sub_sort_by].
+  Qed.
+
+  Lemma wf_edge_from m eid :
+    wf m -> eid < length (m_edges m) -> e_from (get_edge m eid) < length (m_nodes m).
+  Proof.
+    intros W H. pose proof (wf_edges _ W) as F. rewrite Forall_forall in F.
+    apply (F (get_edge m eid)). apply nth_In. exact H.
+  Qed.
+
+  Lemma wf_inb_range m id :
+    wf m -> id < length (m_nodes m) -> ids_ok (length (m_edges m)) (n_inb (gnode m id)).
+  Proof.
+    intros W H. pose proof (wf_nodes _ W) as F. rewrite Forall_forall in F.
+    apply (F (gnode m id)). apply nth_In. exact H.
+  Qed.
+
+  Definition redirect_step (merged : St) (mid : nat) (m : mddT) (eid : nat) : mddT :=
+    let e := get_edge m eid in
+    let src := state_of m (e_from e) in
+    let dst := state_of m (e_to e) in
+    let rcost := relax rlx src dst merged (e_dec e) (e_cost e) in
+    append_edge inp (add_log m (EvRelax src dst merged (e_dec e) (e_cost e) rcost))
+      {| e_from := e_from e; e_to := mid; e_dec := e_dec e; e_cost := rcost |}.
+
+  Lemma redirect_edges_fold m merged mid did :
+    redirect_edges inp m merged mid did = fold_left (redirect_step merged mid) (n_inb (gnode m did)) m.
+  Proof. reflexivity. Qed.
+
+  Lemma wf_redirect_fold merged mid L : forall a,
+    wf a -> mid < length (m_nodes a) -> ids_ok (length (m_edges a)) L ->
+    wf (fold_left (redirect_step merged mid) L a).
+  Proof.
+    induction L as [|eid L IH]; simpl; intros a W Hm HL; auto.
+    inversion HL; subst. apply IH.
+    - unfold redirect_step. apply wf_append_edge.
+      + apply wf_add_log; auto.
+      + simpl. apply wf_edge_from; auto.
+      + simpl. exact Hm.
+    - unfold redirect_step. rewrite append_edge_nodes_length. exact Hm.
+    - unfold redirect_step. rewrite append_edge_edges, app_length. simpl.
+      eapply ids_ok_mono; [|eassumption]. lia.
+  Qed.
+
+  Lemma wf_redirect_edges m merged mid did :
+    wf m -> mid < length (m_nodes m) -> did < length (m_nodes m) ->
+    wf (redirect_edges inp m merged mid did).
+  Proof.
+    intros W Hm Hd. rewrite redirect_edges_fold. apply wf_redirect_fold; auto.
+    apply wf_inb_range; auto.
+  Qed.
+
+  Lemma redirect_edges_nodes_length m merged mid did :
+    length (m_nodes (redirect_edges inp m merged mid did)) = length (m_nodes m).
+  Proof.
+    rewrite redirect_edges_fold.
+    apply (fold_left_proj (fun a : mddT => length (m_nodes a))).
+    intros a x. unfold redirect_step. rewrite append_edge_nodes_length. reflexivity.
+  Qed.
+
+  Definition drop_step (merged : St) (mid : nat) (m : mddT) (drop_id : nat) : mddT :=
+    redirect_edges inp (upd_node m drop_id (fun n => set_flags n (fl_set_deleted (n_flags n) true)))
+      merged mid drop_id.
+
+  Lemma drop_step_nodes_length merged mid m did :
+    length (m_nodes (drop_step merged mid m did)) = length (m_nodes m).
+  Proof. unfold drop_step. rewrite redirect_edges_nodes_length. simpl. apply upd_nth_length. Qed.
+
+  Lemma wf_drop_fold merged mid L : forall a,
+    wf a -> mid < length (m_nodes a) -> ids_ok (length (m_nodes a)) L ->
+    wf (fold_left (drop_step merged mid) L a) /\
+    length (m_nodes (fold_left (drop_step merged mid) L a)) = length (m_nodes a).
+  Proof.
+    induction L as [|did L IH]; simpl; intros a W Hm HL; auto.
+    inversion HL; subst.
+    pose proof (drop_step_nodes_length merged mid a did) as Hlen.
+    destruct (IH (drop_step merged mid a did)) as [W' L'].
+    - unfold drop_step. apply wf_redirect_edges.
+      + apply wf_upd_node; auto. intros n; split; reflexivity.
+      + simpl. rewrite upd_nth_length. exact Hm.
+      + simpl. rewrite upd_nth_length. assumption.
+    - rewrite Hlen. exact Hm.
+    - rewrite Hlen. assumption.
+    - split; auto. rewrite L'. exact Hlen.
+  Qed.
+
 End MddStruct.
